@@ -12,6 +12,7 @@ import (
 	"encoding/json"
 	"fmt"
 	"math/rand"
+	"os"
 	"sort"
 	"strings"
 	"sync"
@@ -46,6 +47,12 @@ const (
 	thoroughRandom = 90000
 	selsPerCase    = 8
 )
+
+// assertedProbeClasses lists the known-divergence classes (ReportOnly.Class) whose defect has been
+// fixed in /repo: their probe cases are then generated as ordinary asserted cases.  Empty on the
+// pinned tree; add e.g. "never-specificity" once the corresponding fix of
+// findings/C05/proposed-fixes.diff is committed.
+var assertedProbeClasses = map[string]bool{}
 
 func nExh(tier string) int { return 2 * len(exhTreeList(tier)) }
 
@@ -137,6 +144,9 @@ func genCase(r *rand.Rand, i int, tier string) any {
 	case 5:
 		oddWS = true
 		c.RO = &ReportOnly{Class: "empty-nonascii-space", Sigs: []string{"match"}}
+	}
+	if c.RO != nil && assertedProbeClasses[c.RO.Class] {
+		c.RO = nil
 	}
 	forest := randForest(r, 1+r.Intn(25), 0)
 	for _, n := range forest {
@@ -422,6 +432,10 @@ func check(raw json.RawMessage) fw.Result {
 	}
 	if in.Mode == "w3c" {
 		return checkW3C()
+	}
+	if os.Getenv("C05_ASSERT_PROBES") != "" {
+		// development switch (validating candidate fixes): treat the report-only probes as assertions
+		in.RO = nil
 	}
 	var res fw.Result
 	doc, err := html.Parse(strings.NewReader(in.HTML))
